@@ -135,9 +135,15 @@ def documented_step(b):
         z1 = s.g.prox(s.C(x1) + s.u, s.nu)
         return {"x": F(x1), "z": F(z1), "zold": F(s.z), "u": F(s.u + s.C(x1) - z1)}
     if a == "padmm":
+        # the constant c and the operator B as DOCUMENTED for the constructor arguments of the recipe (c=None -> 0,
+        # B=None -> -I), not the attributes the object stored
+        rc = b.recipe.get("c")
+        c = 0.0 if rc is None else (float(rc) if isinstance(rc, (int, float)) else G.unflat(rc, b.ushape, cx))
+        Bf = (lambda v: -v) if b.recipe.get("B") is None else s.B
+        Badj = (lambda v: -v) if b.recipe.get("B") is None else s.B.adj
         x1 = s.f.prox(s.x - (1.0 / s.mu) * s.A.adj(2.0 * s.u - s.u_old), 1.0 / (s.rho * s.mu))
-        z1 = s.g.prox(s.z - (1.0 / s.nu) * s.B.adj(s.A(x1) + s.B(s.z) - s.c + s.u), 1.0 / (s.rho * s.nu))
-        return {"x": F(x1), "z": F(z1), "zold": F(s.z), "u": F(s.u + s.A(x1) + s.B(z1) - s.c), "uold": F(s.u)}
+        z1 = s.g.prox(s.z - (1.0 / s.nu) * Badj(s.A(x1) + Bf(s.z) - c + s.u), 1.0 / (s.rho * s.nu))
+        return {"x": F(x1), "z": F(z1), "zold": F(s.z), "u": F(s.u + s.A(x1) + Bf(z1) - c), "uold": F(s.u)}
     if a == "nlpadmm":
         Jx = jax.jacfwd(lambda x: s.H(x, s.z))(s.x)
         x1 = s.f.prox(s.x - (1.0 / s.mu) * (Jx.T @ (2.0 * s.u - s.u_old)), 1.0 / (s.rho * s.mu))
@@ -213,6 +219,39 @@ def _fld(st, fld):
     for part in fld.split("."):
         v = None if v is None else v.get(part)
     return v
+
+
+def oracle_init(case):
+    """documented constructor state evaluated on the implementation: missing starts are zeros, the previous-iterate
+    copies equal the current ones, z = C x0 / u = 0 for ADMM and LinearizedADMM"""
+    b = G.Built(case["recipe"])
+    r, s, cx, a = b.recipe, b.solver, b.cplx, b.alg
+    st = b.read()
+    zero = lambda sh: [0.0] * (G.size_of(sh) * (2 if cx else 1))  # noqa: E731
+    want = {"x": r["x0"] if r.get("x0") is not None else zero(b.xshape)}
+    if a in ("padmm", "nlpadmm"):
+        z = r["z0"] if r.get("z0") is not None else zero(b.zshapes)
+        u = r["u0"] if r.get("u0") is not None else zero(b.ushape)
+        want.update({"z": z, "zold": z, "u": u, "uold": u})
+    elif a == "pdhg":
+        z = r["z0"] if r.get("z0") is not None else zero(b.zshapes)
+        want.update({"xold": want["x"], "z": z, "zold": z})
+    elif a == "ladmm":
+        z = G.flat(s.C(G.unflat(want["x"], b.xshape, cx)), cx)
+        want.update({"z": z, "zold": z, "u": zero(b.zshapes)})
+    elif a == "admm":
+        x0 = G.unflat(want["x"], b.xshape, cx)
+        zs = [G.flat(C(x0), cx) for C in s.C_list]
+        want.update({"z": zs, "zold": zs, "u": [zero(sh) for sh in b.zshapes]})
+    elif a == "apgm":
+        want.update({"v": want["x"], "t": 1.0, "L": float(r["L0"])})
+    elif a == "pgm":
+        want.update({"L": float(r["L0"])})
+    fld = G.states_close(want, st, rtol=RTOL)
+    if fld is None:
+        return None
+    return {"class": type(s).__name__, "recipe": r, "field": fld, "documented_constructor_state": _fld(want, fld),
+            "constructed": _fld(st, fld)}
 
 
 def oracle_step(case):
@@ -296,7 +335,10 @@ def documented_accessor(b, name, args):
             return _norm(s.C(x) - s.z)
         if a == "padmm":
             x, z = (s.x, s.z) if args[0] is None else args
-            return _norm(s.A(x) + s.B(z) - s.c)
+            rc = b.recipe.get("c")  # the documented constructor arguments, not the stored attributes
+            c = 0.0 if rc is None else (float(rc) if isinstance(rc, (int, float)) else G.unflat(rc, b.ushape, b.cplx))
+            Bz = -z if b.recipe.get("B") is None else s.B(z)
+            return _norm(s.A(x) + Bz - c)
         if a == "nlpadmm":
             x, z = (s.x, s.z) if args[0] is None else args
             return _norm(s.H(x, z))
@@ -473,6 +515,9 @@ def run_case(ctx, model, recipe, k, rng, accessors=True, tag="gen"):
     # compared at 1e-5, and only step by step from the real pre-state
     generic = a == "admm" and recipe.get("solver") == "generic"
     rt = 1e-5 if generic else RTOL
+    exact = bool(recipe.get("exact"))
+    if exact:
+        rt = 0.0  # exact-arithmetic stream: bit-for-bit
     # constructor state against the model's init
     init = b.read()
     kw = {}
@@ -485,7 +530,7 @@ def run_case(ctx, model, recipe, k, rng, accessors=True, tag="gen"):
     fld = G.states_close(init, minit, rtol=RTOL, skip=skip + ("mem",))
     ctx.count(f"init:{a}:" + ("x0-given" if recipe.get("x0") is not None else "x0-default"))
     if fld is not None:
-        ctx.disagree(f"steps.{a}.init", {"recipe": recipe}, {fld: init[fld]}, {fld: minit.get(fld)})
+        ctx.disagree(f"steps.{a}.init", {"recipe": recipe}, {fld: init[fld]}, {fld: minit.get(fld)}, oracle=oracle_init)
     if accessors:
         check_accessors(ctx, model, b, rng, recipe, 0)
     # k steps: state after each step
@@ -512,7 +557,8 @@ def run_case(ctx, model, recipe, k, rng, accessors=True, tag="gen"):
             ctx.count("discarded:bb-quotient-at-rounding-level")
             break
         m_iter = G.state_from_wire(trace[i])
-        fld_iter = None if (drifted or (generic and i > 0)) else G.states_close(post, m_iter, rtol=rt if generic else RTOL * 10, skip=skip)
+        fld_iter = None if (drifted or (generic and i > 0)) else G.states_close(post, m_iter, rtol=rt if (generic or exact) else RTOL * 10,
+                                                                                 skip=skip + (("fpr",) if exact else ()))
         fld = fld_iter
         if i > 0:
             # sharp single-step comparison from the real pre-state: this IS the property (one call of step() on a
@@ -521,7 +567,7 @@ def run_case(ctx, model, recipe, k, rng, accessors=True, tag="gen"):
             # deviation of the iterated trace alone (seed 5 thorough: 1e-6 relative after 30 steps while every single
             # step agreed to 1e-15) is counted, not reported.
             m_one = G.state_from_wire(model.call("step", alg=b.model_alg, p=b.p, s=G.state_json(pre), k=1, mode="impl")[0])
-            fld = G.states_close(post, m_one, rtol=rt, skip=skip)
+            fld = G.states_close(post, m_one, rtol=rt, skip=skip + (("fpr",) if exact else ()))
             m_iter = m_one
             if fld is None and fld_iter is not None:
                 ctx.count("discarded:iterated-trace-drift(single-step agrees)")
@@ -678,6 +724,10 @@ def correspond(ctx, model):
             else:
                 k = int(rng.integers(1, kmax + 1))
             run_case(ctx, model, recipe, min(k, kmax), rng, accessors=True, tag="edge" if edge else "valid")
+    # exact-arithmetic stream (bit-for-bit comparison, no tolerance)
+    for it in range(ctx.n(6, 40)):
+        for alg in G.EXACT_ALGS:
+            run_case(ctx, model, G.gen_exact(rng, alg), 3, rng, accessors=False, tag="exact")
 
 
 def findings(ctx, model):
